@@ -2,13 +2,20 @@
 
 D layer : spec/CkptMaint.tla — UpdateCheckpoint as one action per target request, a stop after any
           request, then the next start; all initial layouts of 3 databases; rename / failover / both.
-P layer : spec/trace/TraceCkpt.tla judges, for every initial bookkeeping state x operation x crash
+          spec/BisyncMigrate.tla (+ BisyncMigrateOps.tla) — the start-up bookkeeping of a bidirectional link (namespace
+          resolution with the migration of the recovery state to another mode's format, UpdateCheckpoint, StartPoint with
+          its journal maintenance), one step per write request, a stop before any write, the next start in any mode.
+P layer : spec/trace/TraceMigrate.tla judges the real start-up (migratedrv: layouts left by the real replay, the target dying
+          before every write request of the start-up) and steps the same case through BisyncMigrateOps (DRIFT = the code is
+          no longer the design; not a verdict).
+          spec/trace/TraceCkpt.tla judges, for every initial bookkeeping state x operation x crash
           prefix on the real code (UpdateCheckpoint, DelStaleCheckpoint; each repeated for Go's map
           iteration order), the resume position found by the next start against the one before."""
-import json, os, time, shutil
+import json, os, re, time, shutil
 import vlib
 
 SPEC = os.path.join(vlib.VERIF, "spec")
+MCFG = "SPECIFICATION Spec\nCONSTANTS\n  MaxU = %d\n  FixRoot = TRUE\nINVARIANTS TypeOK ResumeNotLost ResumeNotBack\nCHECK_DEADLOCK FALSE\n"
 DCFG = "SPECIFICATION Spec\nCONSTANTS\n  DBs = %s\n  Rename = %s\n  Failover = %s\n  FixDb = TRUE\nINVARIANTS ResumeNotLost TypeOK\nCHECK_DEADLOCK FALSE\n"
 
 
@@ -23,8 +30,16 @@ def check(prop, tier, seed, replay):
 
 def _check(prop, tier, seed, replay, work, t0):
     drv = vlib.build_driver("ckptdrv", work)
+    mdrv = vlib.build_driver("migratedrv", work)
     states = trans = 0
     druns = []
+    mig = [os.path.join(SPEC, "BisyncMigrate.tla"), os.path.join(SPEC, "BisyncMigrateOps.tla")]
+    maxu = 3 if tier == "quick" else 4
+    r = vlib.tlc(mig, "BisyncMigrate", MCFG % maxu, work, timeout=3000, name="BisyncMigrateD")
+    vlib.tlc_ok(r, "BisyncMigrate.tla MaxU=%d" % maxu)
+    states += r["distinct"]
+    trans += r["generated"]
+    druns.append({"spec": "BisyncMigrate", "MaxU": maxu, "distinct": r["distinct"], "depth": r["depth"]})
     dbs = "{0, 1, 2}" if tier == "quick" else "{0, 1, 2, 3}"
     for rn, fo in (("TRUE", "FALSE"), ("FALSE", "TRUE"), ("TRUE", "TRUE")):
         r = vlib.tlc([os.path.join(SPEC, "CkptMaint.tla")], "CkptMaint", DCFG % (dbs, rn, fo), work, timeout=1800, name="CkptMaintD")
@@ -69,12 +84,60 @@ def _check(prop, tier, seed, replay, work, t0):
         path = vlib.save_replay(prop, "m%d" % v["trace"], {"property": prop, "invariants": v["names"], "event": rec})
         violations.append({"replay": path, "what": "%s: op=%s stopped after %d of %d requests; before=%s after=%s; checkpoints(db,off,ageMs,runid)=%s data dbs=%s" % (
             ",".join(v["names"]), rec["op"], rec["k"], rec["total"], rec["before"], rec["after"], rec["state"], rec["datadbs"])})
-    cov = {"states": states, "transitions": trans, "traces_validated_against_impl": nruns, "samples": samples[:3], "exhaustive": True,
+    # ---- switching the bidirectional recovery format: the real start-up, a stop before every write request
+    mn, mstride = (320, 1) if tier == "quick" else (4000, 1)
+    cmds = [[mdrv, "-seed", str(seed), "-n", str(mn), "-stride", str(mstride), "-shard", str(i), "-shards", str(shards),
+             "-out", os.path.join(work, "m%d.ndjson" % i), "-stats", os.path.join(work, "ms%d.json" % i)] for i in range(shards)]
+    for rc, out in vlib.run_parallel(cmds, timeout=3000):
+        if rc != 0:
+            raise vlib.HarnessError("migratedrv failed (%d):\n%s" % (rc, out[-3000:]))
+    mtrace = os.path.join(work, "mtrace.ndjson")
+    mscen = mcases = 0
+    mops = {}
+    with open(mtrace, "w") as w:
+        for i in range(shards):
+            st = json.load(open(os.path.join(work, "ms%d.json" % i)))
+            mscen += st["scenarios"]
+            mcases += st["cases"]
+            for k, v in (st.get("by_op") or {}).items():
+                mops[k] = mops.get(k, 0) + v
+            samples += (st.get("samples") or [])[:1] if len(samples) < 4 else []
+            shutil.copyfileobj(open(os.path.join(work, "m%d.ndjson" % i)), w)
+    if mcases == 0:
+        raise vlib.HarnessError("migratedrv produced no case")
+    mviol, mr = vlib.tlc_trace([os.path.join(SPEC, "trace", "TraceMigrate.tla"), os.path.join(SPEC, "BisyncMigrateOps.tla")], "TraceMigrate", mtrace, work,
+                               timeout=3000, extra_constants="CONSTANT MaxU = 8\nCONSTANT FixRoot = TRUE\n")
+    drift = len(re.findall(r'<<\s*"DRIFT"', mr["out"]))
+    mlines = open(mtrace).read().splitlines() if mviol else []
+    for v in mviol:
+        rec = json.loads(mlines[v["line"] - 1])
+        sig = {"invariant": v["names"][0], "op": "migrate"}
+        f = vlib.known_match(prop, sig)
+        if f:
+            known.append(f)
+            continue
+        key = (v["names"][0], rec["op"], rec["k"] >= 0)
+        if key in seen or len(violations) >= 10:
+            continue
+        seen.add(key)
+        path = vlib.save_replay(prop, "mig%d" % v["trace"], {"property": prop, "invariants": v["names"], "event": rec})
+        violations.append({"replay": path, "what": "%s: start-up %s, target died before write request %d of %d (-1 = not at all); before=%s after=%s (refused: what the namespace's own mode finds=%s) "
+                                                   "after the rest of the stream=%s; bookkeeping before: %s" % (
+            ",".join(v["names"]), rec["op"], rec["k"] + 1, rec["total"], rec["before"], rec["after"], rec["afterold"], rec["final"], rec["state"])})
+    if drift:
+        print("SPEC-DRIFT: %d of %d start-up cases are not what spec/BisyncMigrateOps.tla computes (positions or the active namespace differ); "
+              "the verdict rests on the recorded answers alone" % (drift, mcases))
+    cov = {"states": states, "transitions": trans, "traces_validated_against_impl": nruns + mcases, "samples": samples[:3], "exhaustive": True,
            "initial_states": nstates, "d_layer_runs": druns,
+           "migration": {"scenarios": mscen, "cases": mcases, "by_mode_change": mops, "spec_drift_cases": drift,
+                         "binding": "every case is stepped through BisyncMigrateOps.tla from the logged layout: predicted positions (before / after / after a refusal) "
+                                    "and the predicted content of the active namespace equal what the code left"},
+           "spec_drift": bool(drift),
            "explanation": "every request prefix of UpdateCheckpoint (rename / failover / both) and DelStaleCheckpoint on %d seeded initial layouts "
                           "(1-3 databases with checkpoints, equal offsets, stale and fresh entries, databases without checkpoint), %d repetitions each" % (nstates, reps)}
     vlib.write_evidence(prop, tier, seed, "model_checking", cov,
-                        ["bidirectional namespace/mode migration (syncer.resolveBisyncCheckpointName...) is not exercised by this check",
+                        ["mode migration: standalone target (one recovery slot), database 0; a start that refuses a migration (no seed) is judged by what "
+                         "the namespace's own mode still finds; namespaces without mode marker are modelled only in the shapes the inference recognises",
                          "Go map iteration order is sampled by repetition on the code side and enumerated in the D model",
                          "modification times are distinct nanosecond stamps"],
                         time.time() - t0, len(violations))
